@@ -2,6 +2,7 @@ package tree
 
 import (
 	"fmt"
+	"sync"
 
 	schemaClient "github.com/sdcio/data-server/pkg/datastore/clients/schema"
 )
@@ -14,6 +15,8 @@ type TreeContext struct {
 	// all the owners that have been the actual owner, hence the
 	// owners of the intents that take part in the transaction
 	involvedOwners map[string]struct{}
+	// serializes the insertion of values that validators load on demand (running, defaults)
+	lazyLoadMutex sync.Mutex
 }
 
 func NewTreeContext(cc TreeCacheClient, sc schemaClient.SchemaClientBound, actualOwner string) *TreeContext {
